@@ -234,6 +234,115 @@ class RetryFamily(Family):
         return exec_retry(case)
 
 
+def exec_retry_multi(case) -> Result:
+    """Several calls of ONE decorated function (or of one decorated method on several instances) in flight at once: every call
+    keeps its own attempt count and its own wait*backoff**k timetable, whatever the other calls are doing."""
+    res = Result(counters={})
+    p, calls_spec = case['p'], case['calls']
+    loop = _loop(case.get('i', 0))
+    log: dict[int, list] = {c: [] for c in range(len(calls_spec))}
+    made: dict = {}
+    retry_on = None if p['retry_on'] is None else ((Listed2,) if p['retry_on'] == 'sub' else ((OSError, Listed) if p['retry_on'] == 'oserr' else (Listed,)))
+
+    async def body(cid):
+        seq = calls_spec[cid]['seq']
+        k = len(log[cid])
+        log[cid].append(loop.time())
+        oc = seq[k] if k < len(seq) else {'k': 'ok', 'd': 0}
+        if oc['d']:
+            await asyncio.sleep(oc['d'])
+        if oc['k'] == 'ok':
+            made[(cid, k)] = f'v{cid}.{k}'
+            return made[(cid, k)]
+        exc = (Listed2 if oc.get('sub') else Listed)(f'l{cid}.{k}') if oc['k'] == 'listed' else Unlisted(f'u{cid}.{k}')
+        made[(cid, k)] = exc
+        raise exc
+
+    deco = retry(wait=p['wait'], retries=p['retries'], timeout=p['timeout'], retry_on=retry_on, backoff_factor=p['backoff'])
+    if case.get('method'):
+        class Svc:
+            @deco
+            async def fn(self, cid):
+                return await body(cid)
+        insts = [Svc() for _ in calls_spec]
+        call = lambda cid: insts[cid].fn(cid)  # noqa: E731
+    else:
+        fn = deco(body)
+        call = lambda cid: fn(cid)  # noqa: E731
+    out: dict = {}
+
+    async def one(cid):
+        await asyncio.sleep(calls_spec[cid]['at'])
+        try:
+            out[cid] = ('ok', await call(cid))
+        except BaseException as ex:  # noqa: BLE001
+            out[cid] = ('raise', ex)
+        out[cid] += (loop.time(),)
+
+    async def main():
+        await asyncio.gather(*[one(c) for c in range(len(calls_spec))])
+        await asyncio.sleep(60)
+
+    try:
+        loop.run_until_complete(main())
+    except Hang as h:
+        res.violations.append({'prop': 'C19', 'clause': 'hang', 'mech': None, 'w': {'case': case, 'hang': str(h)}})
+        return res
+    finally:
+        hard_close(loop)
+    res.counters['c19_concurrent_cases'] = 1
+    for cid, cs in enumerate(calls_spec):
+        starts, final, end = ref_timetable(p, cs['seq'])
+        starts = [cs['at'] + x for x in starts]
+        end += cs['at']
+        got = log[cid]
+        w = {'p': p, 'call': cid, 'at': cs['at'], 'seq': cs['seq'], 'others': [c['at'] for c in calls_spec], 'attempt_starts': got, 'want': starts, 'method': bool(case.get('method'))}
+        res.counters['c19_concurrent_calls'] = res.counters.get('c19_concurrent_calls', 0) + 1
+        res.counters['c19_attempts_checked'] = res.counters.get('c19_attempts_checked', 0) + len(starts)
+        if len(got) != len(starts):
+            res.violations.append({'prop': 'C19', 'clause': 'number-of-attempts', 'mech': None, 'w': w})
+            continue
+        if any(abs(a - b) > TOL for a, b in zip(got, starts)):
+            res.violations.append({'prop': 'C19', 'clause': 'attempt-start-instant', 'mech': None, 'w': w})
+            continue
+        kind, val, at = out[cid]
+        if final[0] == 'ok':
+            if kind != 'ok' or val is not made[(cid, final[1])]:
+                res.violations.append({'prop': 'C19', 'clause': 'first-success-not-returned', 'mech': None, 'w': w})
+        else:
+            _f, k, fk = final
+            if kind != 'raise' or (fk == 'timeout' and not isinstance(val, TimeoutError)) or (fk != 'timeout' and val is not made[(cid, k)]):
+                res.violations.append({'prop': 'C19', 'clause': 'wrong-exception-propagated', 'mech': None, 'w': w})
+        if abs(at - end) > TOL:
+            res.violations.append({'prop': 'C19', 'clause': 'outcome-instant', 'mech': None, 'w': dict(w, got=at, want_end=end)})
+    res.nontrivial = True
+    res.fingerprint = f"m{len(calls_spec)}:{p['retries']}:{p['backoff']}:{[len(v) for v in log.values()]}"
+    return res
+
+
+class RetryConcurrentFamily(Family):
+    name = 'retry_concurrent'
+    props = ('C19',)
+
+    def cases(self, seed, tier, prop):
+        n = 300 if tier == 'quick' else 6000
+        for j in range(n):
+            rng = random.Random(f'c19m/{seed}/{j}')
+            retries = rng.randint(1, 4)
+            p = {'retries': retries, 'wait': rng.choice([0.1, 0.5, 2.0]), 'backoff': rng.choice([0.5, 1.5, 2.0, 3.0, 1.0]), 'timeout': rng.choice([1.0, 5.0]), 'retry_on': rng.choice([None, None, 'listed'])}
+            calls = []
+            for _c in range(rng.randint(2, 4)):
+                seq = []
+                for k in range(retries + 1):
+                    c = rng.choice(['ok', 'listed', 'listed', 'listed', 'overrun'])
+                    seq.append({'k': 'ok' if c == 'overrun' else c, 'd': p['timeout'] + 0.5 if c == 'overrun' else rng.choice([0.0, 0.013, 0.3]), 'sub': False})
+                calls.append({'at': round(rng.choice([0.0, 0.0, 0.07, 0.31, 1.1, 2.9]) + rng.random() * 1e-3, 6), 'seq': seq})
+            yield {'family': self.name, 'i': j, 'p': p, 'calls': calls, 'method': rng.random() < 0.4}
+
+    def execute(self, case, prop):
+        return exec_retry_multi(case)
+
+
 # =========================================================================================== C20
 def ref_semaphore(case):
     """FIFO counting-semaphore reference: for each caller the instant its body is entered (None = never),
@@ -244,7 +353,8 @@ def ref_semaphore(case):
     for i, c in enumerate(callers):
         ev.append((c['at'], 0, 'arrive', i))
         if c.get('cancel_at') is not None:
-            ev.append((c['cancel_at'], 1, 'cancel', i))
+            # 'cancel_steps': cancelled a few loop iterations after everything that happens at that instant (no virtual time passes)
+            ev.append((c['cancel_at'] + (1e-9 if c.get('cancel_steps') else 0.0), 1, 'cancel', i))
     free = {}
     queue = {}
     state = {}
@@ -333,6 +443,8 @@ def exec_sem(case) -> Result:
     L, lax = case['limit'], case['lax']
     callers = [dict(c) for c in case['callers']]
     H.GLOBAL_RETRY_SEMAPHORES.clear()
+    # the decorator samples system load at most once per 5 wall-clock seconds, on the next call: 'probe_due' (below) puts the
+    # process into the state "last sample was long ago" so that the next acquisition goes through that code path
     uid = f"s{case.get('i', 0)}"
     obs = {i: {'enter': None, 'exit': None, 'fate': None, 'inprog_at_enter': None} for i in range(len(callers))}
     inprog: dict = {}
@@ -412,6 +524,8 @@ def exec_sem(case) -> Result:
             t = asyncio.ensure_future(call(i))
             if c.get('cancel_at') is not None:
                 await asyncio.sleep(c['cancel_at'] - (loop.time() - base))
+                for _ in range(c.get('cancel_steps', 0)):
+                    await asyncio.sleep(0)  # same virtual instant, a few loop iterations later: wherever the call is suspended by then
                 if not t.done():
                     t.cancel()
             try:
@@ -448,6 +562,8 @@ def exec_sem(case) -> Result:
     try:
         for pi, idx in enumerate(phases):
             loop = _loop(case.get('i', 0) + pi)
+            if case.get('probe_due'):
+                H._last_overload_check = 0.0  # (after _loop(), which marks the probe as just done)
             try:
                 loop.run_until_complete(run_phase(idx))
             finally:
@@ -477,7 +593,9 @@ def exec_sem(case) -> Result:
             if isinstance(o['fate'], str) and o['fate'].startswith('unexpected'):
                 bad('unexpected-exception', caller=i, fate=o['fate'])
                 continue
-            if o['enter'] is not None:
+            if o['enter'] is not None and not callers[i].get('cancel_steps'):
+                # (a victim cancelled within its own acquisition instant ties with its successor, which enters at that very instant:
+                # the in-body counter below is the monitor for those)
                 # slot holders in progress at this entry: callers that entered lax after an acquisition timeout hold no slot
                 t = o['enter']
                 holders = 1 if r['slot'] else 0
@@ -498,6 +616,12 @@ def exec_sem(case) -> Result:
             if r['enter'] is None:
                 if o['enter'] is not None:
                     bad('body-ran-for-caller-cancelled-while-waiting', caller=i, got=o)
+                continue
+            if callers[i].get('cancel_steps'):
+                # cancelled within the instant of its own acquisition: the body may or may not have been reached yet
+                res.counters['c20_cancellations_at_acquisition'] = res.counters.get('c20_cancellations_at_acquisition', 0) + 1
+                if o['fate'] not in ('cancelled',):
+                    bad('fate-differs-from-reference', caller=i, got=o['fate'], want='cancelled')
                 continue
             if o['enter'] is None:
                 bad('caller-never-entered', caller=i, want=r, got=o)
@@ -577,6 +701,16 @@ class SemFamily(Family):
                 cs[victim]['cancel_at'] = t
                 i += 1
                 yield dict(base, i=i, callers=cs)
+            # cancellation a few loop iterations after the victim's own acquisition instant (between 'has the slot' and 'body runs')
+            if j % 2 == 0:
+                got = [q for q, r in ref.items() if r['enter'] is not None and r['slot'] and callers[q]['dur'] >= 0.1]
+                if got:
+                    victim = rng.choice(got)
+                    cs = [dict(c) for c in callers]
+                    cs[victim]['cancel_at'] = ref[victim]['enter']
+                    cs[victim]['cancel_steps'] = rng.choice([1, 2, 3, 4, 6, 9])
+                    i += 1
+                    yield dict(base, i=i, callers=cs, probe_due=rng.random() < 0.5)
             # successive event loops in one process (same semaphore names)
             if j % 5 == 0:
                 cs = [dict(c) for c in callers] + [dict(c) for c in callers]
